@@ -2,11 +2,12 @@
 Require Extraction.
 Require Import ExtrOcamlBasic.
 From Coq Require Import ZArith NArith List.
-From CB Require Import Common.IntN Wasm.Syntax Wasm.Opcodes Wasm.Validate Wasm.ValidateLimits Wasm.Leb128 Wasm.Imports.
+From CB Require Import Common.IntN Wasm.Syntax Wasm.Opcodes Wasm.Validate Wasm.ValidateLimits Wasm.Leb128 Wasm.Imports Wasm.Parse.
 Extraction Language OCaml.
 Extraction "c09_model.ml"
   plain_of_byte mem_of_byte mk_const
   validate_func ends_early validate_mfunc validate_module func_ctx make_locals artifact_memory
   decode_u32 decode_u64 decode_s32 decode_s64
   import_ok_v0 import_ok_v1 export_ok_v0 export_ok_v1
+  parse_skeleton parse_module to_vmodule cfg_v0 cfg_v1
   Z.of_N Z.to_N N.of_nat N.to_nat Nat.add.
